@@ -34,12 +34,13 @@ enum OpKind {
 	MUTREQ,      // a=method idx b=path idx c=mutation d=value idx: a well-formed request with one member removed or mistyped
 	RAWREQ,      // a=shape b=id variant c=extra: request object of an unusual but model-decidable shape (see world.hpp)
 	BATCH,       // a=count: the next `a` request ops are sent by this connection as one batch array
+	PARTIAL,     // a=cut position b=what: only the first bytes of a well-formed framed request arrive; the stream is useless afterwards
 	WSFRAME,     // a=opcode b=flags(bit0 fin,bit1 masked,bits2-4 rsv) c=lenenc d=declared-length mode s=payload
 	NKINDS
 };
 
 static const char *const kind_names[] = {"connect", "end", "bytes", "msg", "add", "remove", "change", "fetch", "unfetch", "get", "set", "call",
-                                          "reply", "config", "info", "auth", "passwd", "advance", "wplan", "drain", "fault", "chunk", "junk", "mutreq", "rawreq", "batch", "wsframe"};
+                                          "reply", "config", "info", "auth", "passwd", "advance", "wplan", "drain", "fault", "chunk", "junk", "mutreq", "rawreq", "batch", "partial", "wsframe"};
 
 enum ReplyMode { RP_RESULT = 0, RP_ERROR = 1, RP_FORGED = 2, RP_DUPLICATE = 3, RP_OTHERS_RID = 4, RP_NMODES };
 enum IdMode { ID_NUM = 0, ID_STR = 1, ID_NONE = 2 };
